@@ -7,6 +7,7 @@ pub assume_specification [u8::is_ascii_whitespace] (c: &u8) -> (r: bool)
 //@ fn canonical.rs trim_ascii_start
 //@ params bytes
 //@ props C08 C11 C12 C19
+//@ consumers C01 C02
 //@ ret r
 //   (`const` dropped: range indexing is not const-callable; a const fn and a fn run the same code at run time)
 //@ replace 1 `pub const fn trim_ascii_start` => `pub fn trim_ascii_start`
@@ -25,6 +26,7 @@ pub assume_specification [u8::is_ascii_whitespace] (c: &u8) -> (r: bool)
 //@ fn canonical.rs trim_ascii_end
 //@ params bytes
 //@ props C08 C11 C12 C19
+//@ consumers C01 C02
 //@ ret r
 //@ replace 1 `pub const fn trim_ascii_end` => `pub fn trim_ascii_end`
 //@ replace 1 `while let [rest @ .., last] = bytes` => `while bytes.len() > 0`
@@ -42,6 +44,7 @@ pub assume_specification [u8::is_ascii_whitespace] (c: &u8) -> (r: bool)
 //@ fn canonical.rs trim_ascii
 //@ params bytes
 //@ props C08 C11 C12 C19
+//@ consumers C01 C02
 //@ ret r
 //@ replace 1 `pub const fn trim_ascii` => `pub fn trim_ascii`
 //@ spec
